@@ -30,6 +30,8 @@ class FakeNS:
 
     def lookup(self, name):
         TRAFFIC.append(("lookup", name))
+        if RecordingProxy.lookup_fails:
+            raise errors.NamingError("unknown name: " + ("?" if not isinstance(name, str) else name))
         return "PYRO:obj@localhost:9999"
 
     def list(self, regex=None, prefix=None):
@@ -59,12 +61,23 @@ class RecordingProxy:
     """state of the recording transport (the gateway uses the REAL client.Proxy class -- attribute routing,
     _RemoteMethod -- whose four network methods are replaced by the functions below)"""
     reply_is_exception = False
+    outcome = "reply"          # reply | lost-partial | lost | raises
+    lookup_fails = False
 
 
 def rec_invoke(self, methodname, vargs, kwargs, flags=0, objectId=None):
     TRAFFIC.append(("invoke", methodname, tuple(vargs), dict(kwargs or {}), methodname in self._pyroOneway))
     if methodname in self._pyroOneway:
         return None
+    if RecordingProxy.outcome == "lost-partial":
+        # the connection closes in an orderly way while the reply is being read: socketutil.receive_data attaches what it got
+        x = errors.ConnectionClosedError("receiving: not enough data")
+        x.partialData = bytearray(b"PYRO")
+        raise x
+    if RecordingProxy.outcome == "lost":
+        raise errors.ConnectionClosedError("receiving: connection lost: [Errno 104] Connection reset by peer")
+    if RecordingProxy.outcome == "raises":
+        raise errors.ProtocolError("invalid data or unsupported protocol version")
     if RecordingProxy.reply_is_exception:
         return Reply(protocol.FLAGS_EXCEPTION, b'{"result": 1}')
     return Reply(0, b'{"result": 1}')
@@ -132,7 +145,7 @@ def h_request(S, B):
     routing = B["MODE"] == "routing"
     if forwarding:
         # fixed, authorised object; the member part of the path is symbolic
-        path = "/pyro/http.obj/" + S.str("member", B["L"])
+        path = "/pyro/http.obj/" + (S.choice("member", B["FIXED_MEMBERS"]) if "FIXED_MEMBERS" in B else S.str("member", B["L"]))
     elif routing:
         path = S.str("PATH_INFO", B["L"], 0, NO_NEWLINE)
     else:
@@ -151,6 +164,8 @@ def h_request(S, B):
     pattern = S.choice("expose_pattern", PATTERNS[:1] if (forwarding or not call_like) else (PATTERNS[1:2] if routing else PATTERNS))
     oneway_opt = S.flag("oneway_option") if forwarding else False
     RecordingProxy.reply_is_exception = S.bool("remote_call_raises") if forwarding else False
+    RecordingProxy.outcome = S.choice("remote_call_outcome", B.get("OUTCOMES", ["reply"])) if forwarding else "reply"
+    RecordingProxy.lookup_fails = S.flag("name_is_unknown_to_the_name_server") if forwarding and "FIXED_MEMBERS" in B and RecordingProxy.outcome == "reply" else False
     params = {}
     if not routing and (forwarding or member_part == "/echo") and S.flag("has_parameter"):
         params["message"] = S.str("param_value", 2)
@@ -202,7 +217,7 @@ def h_request(S, B):
         key_ok = And(len(presented) == 2, presented[0] == chr_of(S, configured[0]), presented[1] == chr_of(S, configured[1])) if len(presented) == 2 else False
     if len(lookups) == 0:
         S.cover("denied")
-        S.check("denied-requests-cause-no-pyro-traffic", TRAFFIC == [] or TRAFFIC == [("get_nameserver",)])
+        S.check("denied-requests-cause-no-pyro-traffic", TRAFFIC == [])
         S.check("denied-status", code in ("403", "404", "405"))
         # an authorised, well-formed request is not denied
         S.observe("denied", code)
@@ -229,11 +244,18 @@ def h_request(S, B):
                     S.check("parameter-values-forwarded-unchanged", eq(invokes[0][3][k], expected_params[k]))
         S.check("exactly-the-named-object-and-member", eq(name + "/" + member, rest))
         S.check("member-has-no-slash", Not("/" in member))
-        if invokes[0][4] or oneway_opt:
+        if invokes[0][4] or (oneway_opt and RecordingProxy.outcome == "reply"):
             S.check("oneway-answers-200-empty", code == "200")
         else:
-            S.check("status-follows-the-reply", Or(And(RecordingProxy.reply_is_exception, code == "500"),
-                                                   And(Not(RecordingProxy.reply_is_exception), code == "200")))
+            if RecordingProxy.outcome == "reply":
+                S.check("status-follows-the-reply", Or(And(RecordingProxy.reply_is_exception, code == "500"),
+                                                       And(Not(RecordingProxy.reply_is_exception), code == "200")))
+            else:
+                # the one call failed on the way (connection lost while waiting for the reply, protocol error): the method may
+                # have run, so it is not repeated; the HTTP client gets that call's error
+                S.cover("call-failed-in-transit")
+                S.check("failed-call-is-reported-as-500", code == "500")
+                S.check("failed-call-error-body-names-the-error", _is_json_error(body))
     elif len(invokes) == 0:
         # $meta, or an error before the call
         if code == "200":
@@ -242,8 +264,22 @@ def h_request(S, B):
             S.check("no-call-means-error-status", code == "500")
     else:
         S.check("at-most-one-invocation", False)
+    if RecordingProxy.lookup_fails:
+        S.cover("unknown-name")
+        S.check("unknown-name-is-an-error-without-a-call", len(invokes) == 0 and code == "500" and _is_json_error(body))
     S.observe("traffic", [t[0] for t in TRAFFIC])
     S.observe("status", code)
+
+
+def _is_json_error(body):
+    import json
+    if not all(isinstance(b, bytes) for b in body):
+        return True         # (symbolic mode) opaque text produced by json.dumps from a dict with symbolic members
+    try:
+        d = json.loads(b"".join(body).decode("utf-8"))
+    except Exception:
+        return False
+    return isinstance(d, dict) and d.get("__exception__") is True and isinstance(d.get("__class__"), str)
 
 
 def chr_of(S, b):
@@ -292,4 +328,12 @@ SPECS = [
                  "check:only-$meta-answers-without-a-call"],
          native_patch=env.native_env, reset=_reset,
          desc="an authorised call request /pyro/http.obj/<member> with a symbolic member (any code points), symbolic parameter value and $key parameter, oneway option, remote reply ok/exception, through the real Proxy attribute routing"),
+    Spec("call_failures", h_request, {"quick": {"L": 4, "LM": 4, "MODE": "forwarding", "FIXED_MEMBERS": ["echo", "value", "oneway_work", "$meta"],
+                                                "OUTCOMES": ["reply", "lost-partial", "lost", "raises"]},
+                                      "thorough": {"L": 4, "LM": 4, "MODE": "forwarding", "FIXED_MEMBERS": ["echo", "value", "oneway_work", "$meta", "ping"],
+                                                   "OUTCOMES": ["reply", "lost-partial", "lost", "raises"]}},
+         covers=["status:200", "status:500", "forwarded", "call-failed-in-transit", "unknown-name", "check:failed-call-is-reported-as-500",
+                 "check:failed-call-error-body-names-the-error", "check:unknown-name-is-an-error-without-a-call"],
+         native_patch=env.native_env, reset=_reset,
+         desc="an authorised call request for a method, an attribute, a oneway method or $meta whose one remote call returns, answers with an exception, loses its connection while the reply is read (with and without partial data attached, as socketutil.receive_data does), or fails with a protocol error; or whose name the name server does not know"),
 ]
